@@ -167,11 +167,11 @@ def run_gates(prog: Program, report: Report, table: list, pid: str) -> None:
         if g.rule not in report.rules:
             report.rules.append(g.rule)
         try:
-            if g.rule == "RG-auto":
+            if g.rule in ("RG-auto", "RV-auto"):
                 auto_total += 1
             n += _run_one(prog, report, g)
         except AnalysisError as e:
-            if g.rule == "RG-auto" and ("found 0 time" in str(e) or "expected at most" in str(e)):
+            if g.rule in ("RG-auto", "RV-auto") and ("found 0 time" in str(e) or "expected at most" in str(e)):
                 # an instance extracted from the reviewed tree is a universally quantified statement over
                 # the statements of that text: when the statement is gone (or there are now more of them
                 # than were reviewed) there is nothing to judge.  The hand table keeps the strict policy;
@@ -239,11 +239,16 @@ def _run_one(prog: Program, report: Report, g) -> int:
                     raise AnalysisError(f"{g.rule}: {g.fn}: target /{g.target}/ has no value expression")
                 cands = [e] + [v.res.expr(e, d) for d in (1, 2, 3)]
                 gots = [canon(c) for c in cands]
-                if want in gots:
+                # hoisted sub-expressions: both sides with every single-assignment local replaced by its definition
+                full = canon(v.res.expr(e, 6)) == canon(v.res.expr(want_ast, 6))
+                if want in gots or full or _equal_modulo_rename(v, want_ast, e, canon):
                     report.ob(g.rule, g.fn, f"{g.why.split(';')[0]}: `{one_line(e)[:70]}` = {want}")
                 elif not any(kind_of(c) == kind_of(want_ast) for c in cands):
                     # a different construct: unrecognised idiom for this target only (other targets are still judged)
-                    report.errors.append(f"{g.rule}: {g.fn}: `{one_line(e)[:60]}` is a different construct than the documented formula `{want[:60]}` (unrecognised idiom)")
+                    msg = f"{g.rule}: {g.fn}: `{one_line(e)[:60]}` is a different construct than the documented formula `{want[:60]}` (unrecognised idiom)"
+                    if g.rule == "RV-auto":
+                        raise AnalysisError(msg + " found 0 time(s) of the reviewed construct")
+                    report.errors.append(msg)
                 else:
                     report.violate(g.rule, v.fn, t, f"{g.why.split(';')[0]}: {one_line(t)[:100]}", f"{g.why}; the expression normalises to `{gots[0]}` but the documented formula is `{want}`", what=f"/{g.target}/ = {want}")
         elif isinstance(g, Form):
@@ -302,6 +307,32 @@ def _run_one(prog: Program, report: Report, g) -> int:
                 else:
                     report.violate(g.rule, v.fn, t, f"{g.why.split(';')[0]}: {one_line(t)[:100]}", f"{g.why}; a path from the function entry reaches this statement without passing `{g.through}`", what=f"every path to the target passes /{g.through}/")
     return n
+
+
+def _equal_modulo_rename(v: FnView, want_ast: ast.expr, e: ast.expr, canon) -> bool:
+    """The formula mentions locals that no longer exist in the function while the expression
+    mentions as many names the formula does not know: a renamed local, not a changed term
+    (a swap of two existing names keeps both names in the function and is not excused)."""
+    import itertools
+
+    fn_names = {n.id for n in ast.walk(v.fn.node) if isinstance(n, ast.Name)} | {a.arg for a in ast.walk(v.fn.node) if isinstance(a, ast.arg)}
+    want_names = [n.id for n in ast.walk(want_ast) if isinstance(n, ast.Name)]
+    gone = sorted({n for n in want_names if n not in fn_names})
+    new = sorted({n.id for n in ast.walk(e) if isinstance(n, ast.Name)} - set(want_names))
+    if not gone or len(gone) != len(new) or len(gone) > 3:
+        return False
+    from ..norm import clone
+
+    got = canon(e)
+    for perm in itertools.permutations(new):
+        m = dict(zip(gone, perm))
+        w = clone(want_ast)
+        for n in ast.walk(w):
+            if isinstance(n, ast.Name) and n.id in m:
+                n.id = m[n.id]
+        if canon(w) == got:
+            return True
+    return False
 
 
 def _must_pass_iteration(v: FnView, t: ast.AST, tn, thr: list) -> bool:
